@@ -102,6 +102,102 @@ func runInflightConcurrent(res *lp.Result) {
 	}
 }
 
+// Senders racing the arrival of responses (the window in which a response recycles an id while a sender borrows one): S
+// goroutines send managed requests as fast as they can, a responder delivers the final response of each accepted request
+// at once. Refusals while the table is full are legitimate and not judged here; judged are (a) two requests accepted
+// with the same id while neither is answered, (b) an id outside 1..N, and (c) the state after everything has been
+// answered: N new requests must be accepted, with N distinct ids of 1..N.
+func runInflightSendVsDeliver(res *lp.Result) {
+	rounds, perRound := 12, 1500
+	if thorough() {
+		rounds, perRound = 200, 3000
+	}
+	rng := lp.NewRng(*seed + 99)
+	for round := 0; round < rounds; round++ {
+		n := 1 + round%3
+		senders := 1 + rng.Intn(3)
+		id := fmt.Sprintf("send-vs-deliver round %d (seed %d): N=%d, %d senders against one responder, %d requests", round, *seed, n, senders, perRound)
+		res.Case(id, true)
+		res.Count("concurrent/send-vs-deliver")
+		h := client.VerifNewHandler(n, 4, time.Hour)
+		acceptedIds := make(chan int16, 1<<16)
+		var unanswered sync.Map // id -> true while accepted and not yet delivered
+		var bad sync.Map
+		var accepted int64
+		var mu sync.Mutex
+		var wg sync.WaitGroup
+		stop := make(chan struct{})
+		for sdr := 0; sdr < senders; sdr++ {
+			wg.Add(1)
+			go func() {
+				defer wg.Done()
+				for {
+					select {
+					case <-stop:
+						return
+					default:
+					}
+					req, err := h.Send(frame.NewFrame(primitive.ProtocolVersion4, 0, &message.Options{}))
+					if err != nil {
+						continue
+					}
+					sid := req.StreamId()
+					if sid < 1 || int(sid) > n {
+						bad.Store(fmt.Sprintf("accepted request carries stream id %d, outside 1..%d", sid, n), true)
+					}
+					if _, dup := unanswered.LoadOrStore(sid, true); dup {
+						bad.Store(fmt.Sprintf("stream id %d given to a request while another unanswered request carries it", sid), true)
+					}
+					mu.Lock()
+					accepted++
+					done := accepted >= int64(perRound)
+					mu.Unlock()
+					acceptedIds <- sid
+					if done {
+						return
+					}
+				}
+			}()
+		}
+		respDone := make(chan struct{})
+		go func() {
+			defer close(respDone)
+			for sid := range acceptedIds {
+				unanswered.Delete(sid)
+				h.Deliver(frame.NewFrame(primitive.ProtocolVersion4, sid, &message.Supported{}))
+			}
+		}()
+		ok := within(20*time.Second, func() { wg.Wait() })
+		close(stop)
+		wg.Wait()
+		close(acceptedIds)
+		<-respDone
+		bad.Range(func(k, _ interface{}) bool {
+			res.Add(lp.Finding{Kind: "violation", What: k.(string), Input: id})
+			return true
+		})
+		// everything accepted has been answered: N new requests must go out
+		seen := map[int16]bool{}
+		for k := 0; k < n; k++ {
+			req, err := h.Send(frame.NewFrame(primitive.ProtocolVersion4, 0, &message.Options{}))
+			if err != nil {
+				res.Add(lp.Finding{Kind: "violation", What: "after all requests are answered fewer than N new ones can be sent (senders racing responses)", Input: id,
+					Impl: fmt.Sprintf("send %d of %d refused: %s; free ids %d, registered %d, %d requests had been accepted (all within time: %v)", k+1, n, firstWords(err.Error()), h.FreeIds(), h.InFlightCount(), accepted, ok)})
+				break
+			}
+			if seen[req.StreamId()] || req.StreamId() < 1 || int(req.StreamId()) > n {
+				res.Add(lp.Finding{Kind: "violation", What: "after all requests are answered the new ones do not get distinct ids of 1..N", Input: id, Impl: fmt.Sprint(req.StreamId())})
+			}
+			seen[req.StreamId()] = true
+		}
+		func() {
+			defer func() { recover() }()
+			h.Close()
+			h.CancelContext()
+		}()
+	}
+}
+
 // The limits as configured on a real client connection (MaxInFlight = N, MaxPending = P with N != P): against a peer that
 // never answers, exactly N managed sends are accepted, with ids 1..N, and the next is refused; after the peer answers all of
 // them, N more are accepted.
@@ -165,10 +261,63 @@ func runInflightConnection(res *lp.Result) {
 	}
 }
 
+// Caller-chosen ids on a real connection (any int16, negative ones included): the id is in use until the final response has
+// arrived — a second send with it is refused — and usable again afterwards.
+func runInflightExplicitConnection(res *lp.Result) {
+	id := "client connection with MaxInFlight=4, library server as the peer"
+	res.Case(id, true)
+	srv, addr, cancel := startServer(nil)
+	defer cancel()
+	cl := newClient(addr, nil, primitive.CompressionNone, time.Hour)
+	cl.MaxInFlight, cl.MaxPending = 4, 4
+	cc, sc, err := srv.BindAndInit(cl, contextBackground(), primitive.ProtocolVersion4, 1)
+	if err != nil {
+		res.Add(lp.Finding{Kind: "harness", What: "cannot set up a connection", Input: id, Impl: err.Error()})
+		return
+	}
+	for _, sid := range []int16{5, -1, -32768, 32767} {
+		what := fmt.Sprintf("%s; caller-chosen stream id %d", id, sid)
+		res.Count("connection/explicit-id")
+		r1, err := cc.Send(frame.NewFrame(primitive.ProtocolVersion4, sid, &message.Options{}))
+		if err != nil {
+			res.Add(lp.Finding{Kind: "violation", What: "send with a caller-chosen id that no unanswered request carries is refused", Input: what, Impl: firstWords(err.Error())})
+			continue
+		}
+		if _, err := cc.Send(frame.NewFrame(primitive.ProtocolVersion4, sid, &message.Options{})); err == nil {
+			res.Add(lp.Finding{Kind: "violation", What: "caller-chosen id of an unanswered request accepted a second time", Input: what})
+			within(3*time.Second, func() { sc.Receive() })
+		}
+		answer := func() {
+			within(3*time.Second, func() {
+				if f, err := sc.Receive(); err == nil && f != nil {
+					sc.Send(frame.NewFrame(primitive.ProtocolVersion4, f.Header.StreamId, &message.Supported{}))
+				}
+			})
+		}
+		answer()
+		var got *frame.Frame
+		if !within(3*time.Second, func() { got, _ = cc.Receive(r1) }) || got == nil {
+			res.Add(lp.Finding{Kind: "violation", What: "the response to a request sent with a caller-chosen id does not reach it", Input: what})
+			continue
+		}
+		r2, err := cc.Send(frame.NewFrame(primitive.ProtocolVersion4, sid, &message.Options{}))
+		if err != nil {
+			res.Add(lp.Finding{Kind: "violation", What: "caller-chosen id is not usable again after its request's final response arrived", Input: what, Impl: firstWords(err.Error())})
+			continue
+		}
+		answer()
+		within(3*time.Second, func() { cc.Receive(r2) })
+	}
+	cc.Close()
+	srv.Close()
+}
+
 // C10 at connection level (real client connection, library server as the peer): k requests outstanding, answered in reverse
 // order with a response on an unused stream id and an event in between: every request gets exactly its own response, the
 // spurious response disturbs nobody, the event goes to the event channel and to no request.
 func runRoutingConnection(res *lp.Result) {
+	// caller-chosen ids of the whole int16 range: negative ones are legal for requests (the event also travels with id -1)
+	rid := func(k int) int16 { return []int16{20, -1, -32768, 23}[k] }
 	for _, v := range []primitive.ProtocolVersion{primitive.ProtocolVersion3, primitive.ProtocolVersion4, primitive.ProtocolVersion5, primitive.ProtocolVersionDse2} {
 		id := fmt.Sprintf("client connection %v: 4 requests outstanding, answered in reverse order, spurious response and event in between", v)
 		res.Case(id, true)
@@ -184,7 +333,7 @@ func runRoutingConnection(res *lp.Result) {
 		viol := func(what, impl string) { res.Add(lp.Finding{Kind: "violation", What: what, Input: id, Impl: impl}) }
 		var reqs []client.InFlightRequest
 		for k := 0; k < 4; k++ {
-			r, err := cc.Send(frame.NewFrame(v, int16(20+k), &message.Query{Query: fmt.Sprintf("q%d", k)}))
+			r, err := cc.Send(frame.NewFrame(v, rid(k), &message.Query{Query: fmt.Sprintf("q%d", k)}))
 			if err != nil {
 				viol("client refuses to send a request", err.Error())
 				break
@@ -201,7 +350,7 @@ func runRoutingConnection(res *lp.Result) {
 				sc.Send(frame.NewFrame(v, -1, &message.StatusChangeEvent{ChangeType: primitive.StatusChangeTypeUp,
 					Address: &primitive.Inet{Addr: []byte{127, 0, 0, 1}, Port: 9042}}))
 			}
-			sc.Send(frame.NewFrame(v, int16(20+k), &message.SetKeyspaceResult{Keyspace: fmt.Sprintf("ks%d", k)}))
+			sc.Send(frame.NewFrame(v, rid(k), &message.SetKeyspaceResult{Keyspace: fmt.Sprintf("ks%d", k)}))
 		}
 		for k, r := range reqs {
 			var f *frame.Frame
@@ -210,8 +359,8 @@ func runRoutingConnection(res *lp.Result) {
 				viol("a response for an unknown stream id (or an event) disturbs the delivery to other requests", fmt.Sprintf("request %d: %v", k, err))
 				continue
 			}
-			if sk, ok := f.Body.Message.(*message.SetKeyspaceResult); !ok || sk.Keyspace != fmt.Sprintf("ks%d", k) || f.Header.StreamId != int16(20+k) {
-				viol("response delivered to the wrong request", fmt.Sprintf("request %d (stream id %d) received %v", k, 20+k, f.Body.Message))
+			if sk, ok := f.Body.Message.(*message.SetKeyspaceResult); !ok || sk.Keyspace != fmt.Sprintf("ks%d", k) || f.Header.StreamId != rid(k) {
+				viol("response delivered to the wrong request", fmt.Sprintf("request %d (stream id %d) received %v", k, rid(k), f.Body.Message))
 			}
 			// exactly once: the channel is closed after the single response
 			extra := 0
@@ -236,6 +385,68 @@ func runRoutingConnection(res *lp.Result) {
 		cc.Close()
 		srv.Close()
 		cancel()
+	}
+}
+
+// Events that nobody consumes must not hold up responses: the peer pushes more events than the event queue holds (its
+// capacity is MaxInFlight) while a request is outstanding, then answers the request; the request must get its response, and
+// the event channel must hold events only.
+func runRoutingEventFlood(res *lp.Result) {
+	for _, n := range []int{1, 2, 5} {
+		id := fmt.Sprintf("client connection with MaxInFlight=%d: %d events pushed that nobody consumes, then the response to the outstanding request", n, n+3)
+		res.Case(id, true)
+		res.Count("connection/event-flood")
+		func() {
+			srv, addr, cancel := startServer(nil)
+			defer cancel()
+			cl := newClient(addr, nil, primitive.CompressionNone, 10*time.Second)
+			cl.MaxInFlight = n
+			v := primitive.ProtocolVersion4
+			cc, sc, err := srv.BindAndInit(cl, contextBackground(), v, 1)
+			if err != nil {
+				res.Add(lp.Finding{Kind: "harness", What: "cannot set up a connection", Input: id, Impl: err.Error()})
+				return
+			}
+			defer srv.Close()
+			defer cc.Close()
+			r, err := cc.Send(frame.NewFrame(v, 0, &message.Query{Query: "q"}))
+			if err != nil {
+				res.Add(lp.Finding{Kind: "violation", What: "client refuses to send a request", Input: id, Impl: err.Error()})
+				return
+			}
+			var req *frame.Frame
+			within(3*time.Second, func() { req, _ = sc.Receive() })
+			if req == nil {
+				res.Add(lp.Finding{Kind: "harness", What: "request did not reach the peer", Input: id})
+				return
+			}
+			for k := 0; k < n+3; k++ {
+				sc.Send(frame.NewFrame(v, -1, &message.StatusChangeEvent{ChangeType: primitive.StatusChangeTypeUp, Address: &primitive.Inet{Addr: []byte{127, 0, 0, byte(k + 1)}, Port: 9042}}))
+			}
+			sc.Send(frame.NewFrame(v, req.Header.StreamId, &message.SetKeyspaceResult{Keyspace: "answer"}))
+			var f *frame.Frame
+			if !within(4*time.Second, func() { f, err = cc.Receive(r) }) || err != nil || f == nil {
+				res.Add(lp.Finding{Kind: "violation", What: "a response is not delivered to its request while unconsumed events fill the event queue", Input: id, Impl: fmt.Sprint(err)})
+				return
+			}
+			if sk, ok := f.Body.Message.(*message.SetKeyspaceResult); !ok || sk.Keyspace != "answer" {
+				res.Add(lp.Finding{Kind: "violation", What: "request received something that is not its response", Input: id, Impl: fmt.Sprint(f.Body.Message)})
+			}
+			got := 0
+			for got < n+3 {
+				var ev *frame.Frame
+				if !within(300*time.Millisecond, func() { ev, _ = cc.ReceiveEvent() }) || ev == nil {
+					break
+				}
+				if _, ok := ev.Body.Message.(*message.StatusChangeEvent); !ok {
+					res.Add(lp.Finding{Kind: "violation", What: "event channel delivers something that is not an event", Input: id, Impl: fmt.Sprint(ev.Body.Message)})
+				}
+				got++
+			}
+			if got == 0 {
+				res.Add(lp.Finding{Kind: "violation", What: "no pushed event reached the event channel", Input: id})
+			}
+		}()
 	}
 }
 
